@@ -33,7 +33,8 @@ EXHAUSTIVE = {"quick": True, "thorough": True}
 NCHUNKS = 16
 
 ATOMS = ["T", "F", "R", "P1", "P0", "PC1", "PC0", "PZ1", "PZ0", "SA", "SI", "SAb", "SIx", "M"]
-POSITIONS = ["cand0", "cand1", "cand2", "parent", "grandparent", "ancestor-fallback", "choose", "enq"]
+POSITIONS = ["cand0", "cand1", "cand2", "parent", "grandparent", "ancestor-fallback", "choose", "enq",
+             "late-region"]
 LIBMISSING = xs.ImplementationMissingError
 
 
@@ -101,8 +102,12 @@ def has_unreached_missing(e):
     return contains(e) and eval_guard(e)[0] != "missing"
 
 
-def to_cfg(e, spelling):
+def to_cfg(e, spelling, late=False):
     if isinstance(e, str):
+        if late and e in ("SA", "SI"):
+            # position 'late-region': states a sibling region's transition of the SAME event leaves /
+            # enters before the guarded transition is executed
+            return {"type": "stateIn", "params": {"state": "#m.a.p.us.c.i" if e == "SA" else "#m.a.p.us.c.j"}}
         return {
             "T": "gT", "F": "gF", "R": "gR", "M": "gMissing",
             "P1": {"type": "gP", "params": {"v": 1}}, "P0": {"type": "gP", "params": {"v": 0}},
@@ -118,7 +123,7 @@ def to_cfg(e, spelling):
             # inactive state `m.b.s`; the active leaf's id merely ENDS with the same letters
             "SIx": {"type": "stateIn", "params": {"state": "s"}},
         }[e]
-    kids = [to_cfg(c, spelling) for c in e[1:]]
+    kids = [to_cfg(c, spelling, late) for c in e[1:]]
     if e[0] == "not":
         if spelling == "params":
             return {"type": "not", "params": {"guard": kids[0]}}
@@ -130,19 +135,19 @@ def to_cfg(e, spelling):
 
 # guards that are false / true but share their *type* (and shape) with atoms of the formula
 # under test: candidates evaluated in the same selection pass must not influence each other
-FALSE_GUARDS = ["gF", {"type": "gP", "params": {"v": 0}},
+FALSE_GUARDS = ["gF", {"type": "gP", "params": {"v": 0}}, {"type": "gF", "params": {"unused": 1}},
                 {"type": "stateIn", "params": {"state": "#m.b"}},
                 {"type": "and", "children": [{"type": "gP", "params": {"v": 0}}, "gT"]},
                 {"type": "not", "children": [{"type": "gP", "params": {"v": 1}}]}]
-TRUE_GUARDS = [None, {"type": "gP", "params": {"v": 1}},
+TRUE_GUARDS = [None, {"type": "gP", "params": {"v": 1}}, {"type": "gT", "params": {"unused": 1}},
                {"type": "stateIn", "params": {"state": "#m.a.p.us"}},
                {"type": "or", "children": [{"type": "gP", "params": {"v": 1}}, "gF"]}]
 
 
 def build(e, spelling, position, key, salt=0):
-    g = to_cfg(e, spelling)
+    g = to_cfg(e, spelling, late=(position == "late-region"))
     gF = FALSE_GUARDS[salt % len(FALSE_GUARDS)]
-    gFall = TRUE_GUARDS[(salt // 5) % len(TRUE_GUARDS)]
+    gFall = TRUE_GUARDS[(salt // len(FALSE_GUARDS)) % len(TRUE_GUARDS)]
 
     def cand(guard, action):
         d = {"actions": [action]}
@@ -172,31 +177,83 @@ def build(e, spelling, position, key, salt=0):
         def cb(a, _g=g):
             a["enqueue"]("fire" if a["check"](_g) else "fallback")
         s_on["E"] = {"actions": [{"type": "xstate.enqueueActions", "params": {"callback": cb}}]}
+    if position == "late-region":
+        # `us` is parallel: region c (entered and examined first) moves on E and swaps the context
+        # values computed params read; region w holds the guarded candidate.  Guards are decided
+        # when the event's transitions are SELECTED - against the configuration and context the
+        # event arrived in - not again when each transition is executed.
+        flip = {"type": "xstate.assign", "params": {"assignment": {"one": 0, "zero": 1}}}
+        us = {"type": "parallel", "states": {
+            "c": {"initial": "i", "states": {"i": {"on": {"E": {"target": "j", "actions": [flip]}}}, "j": {}}},
+            "w": {"initial": "w1", "states": {"w1": {"on": {
+                "PROBE": {"actions": ["probe"]},
+                "E": [cand(g, "fire"), cand(None, "fallback")]}}}}}}
+        return {"id": "m", "initial": "a", "context": {"one": 1, "zero": 0}, "states": {
+            "a": {"initial": "p", "states": {"p": {"initial": "us", "states": {"us": us}}}},
+            "b": {"initial": "s", "states": {"s": {}}}}}
     return {"id": "m", "initial": "a", "context": {"one": 1, "zero": 0}, "states": {
         "a": {"initial": "p", "on": a_on, "states": {
             "p": {"initial": "us", "on": p_on, "states": {"us": {"on": s_on}}}}},
         "b": {"initial": "s", "states": {"s": {}}}}}
 
 
-def logic(fired):
+class _Obj2:
+    """A guard implemented as a callable object, (context, event)."""
+    def __init__(self, f):
+        self.f = f
+
+    def __call__(self, context, event):
+        return self.f(context, event)
+
+
+class _Obj3:
+    """A guard implemented as a callable object, (context, event, params)."""
+    def __init__(self, f):
+        self.f = f
+
+    def __call__(self, context, event, params):
+        return self.f(context, event, params)
+
+
+def _as_kind(f, arity, kind):
+    """The same predicate as a plain function, a callable object, a functools.partial or a
+    functools.wraps-decorated wrapper - all are callables a user may register."""
+    import functools
+    if kind == 1:
+        return _Obj2(f) if arity == 2 else _Obj3(f)
+    if kind == 2:
+        if arity == 2:
+            return functools.partial(lambda tag, c, e: f(c, e), "bound")
+        return functools.partial(lambda tag, c, e, params: f(c, e, params), "bound")
+    if kind == 3:
+        @functools.wraps(f)
+        def wrapper(*a, **k):
+            return f(*a, **k)
+        return wrapper
+    return f
+
+
+def logic(fired, salt=0):
     def mk(n):
         return lambda i, c, e, a, _n=n: fired.append(_n)
 
     def gR(c, e):
         raise RuntimeError("guard raised")
+    impl = {"gT": (lambda c, e: True, 2), "gF": (lambda c, e: False, 2), "gR": (gR, 2),
+            "gP": (lambda c, e, params: params["v"] == 1, 3),
+            "gZ": (lambda c, e, params: params == {}, 3),
+            "gZ0": (lambda c, e, params: params != [], 3)}
+    kind = (salt // 3) % 4
     return MachineLogic(
         actions={n: mk(n) for n in ("fire", "fallback", "wrong", "probe")},
-        guards={"gT": lambda c, e: True, "gF": lambda c, e: False, "gR": gR,
-                "gP": lambda c, e, params: params["v"] == 1,
-                "gZ": lambda c, e, params: params == {},
-                "gZ0": lambda c, e, params: params != []})
+        guards={n: _as_kind(f, ar, kind) for n, (f, ar) in impl.items()})
 
 
 def run_one(res: Result, e, spelling, position, key, engine, salt=0):
     fired = []
     cfg = build(e, spelling, position, key, salt)
     try:
-        machine = create_machine(cfg, logic=logic(fired))
+        machine = create_machine(cfg, logic=logic(fired, salt))
     except Exception as exc:  # noqa: BLE001
         res.violation("C06:create-machine-raised-%s" % type(exc).__name__,
                       "create_machine raised %r for guard %r" % (exc, e),
@@ -244,6 +301,7 @@ def run_one(res: Result, e, spelling, position, key, engine, salt=0):
     res.evaluations += 1
     res.count("runs." + engine)
     res.count("position." + position)
+    res.count("guard-implementation-kind.%d" % ((salt // 3) % 4))
     composite = not isinstance(e, str)
     if composite or e in ("R", "M"):
         res.hashes.add(h([repr(e), spelling, position, key, engine]))
@@ -368,7 +426,8 @@ def quota(counters, tier):
     out = []
     for k in ("judged.true", "judged.false", "judged.missing-reached", "judged.missing-unreached",
               "runs.sync", "runs.async", "position.choose", "position.enq",
-              "position.ancestor-fallback", "formulas.sampled-deeper"):
+              "position.ancestor-fallback", "position.late-region", "formulas.sampled-deeper",
+              "guard-implementation-kind.1", "guard-implementation-kind.2", "guard-implementation-kind.3"):
         if counters.get(k, 0) == 0:
             out.append("monitor-never-reached:" + k)
     return out
